@@ -98,9 +98,21 @@ func (n *Node) AppchainStatus(chainID string) string {
 	return n.statusOf(constant.AppchainMgrContractAddr, "GetAppchain", chainID)
 }
 
-// ServiceStatus returns the governance status of service "<chainID>:<serviceID>" ("" if unknown).
+// ServiceStatus returns the governance status of service "<chainID>:<serviceID>" ("" if unknown). It is read from
+// the stored record, not through the service manager's query method: the harness must not depend on the contract code
+// path it is there to observe (and must not warm the contract's per-process state on some replicas only).
 func (n *Node) ServiceStatus(chainServiceID string) string {
-	return n.statusOf(constant.ServiceMgrContractAddr, "GetServiceInfo", chainServiceID)
+	data := n.stateDB.Get(append(append([]byte{}, constant.ServiceMgrContractAddr.Address().Bytes()...), []byte("service-"+chainServiceID)...))
+	if data == nil {
+		return n.statusOf(constant.ServiceMgrContractAddr, "GetServiceInfo", chainServiceID)
+	}
+	var obj struct {
+		Status string `json:"status"`
+	}
+	if json.Unmarshal(data, &obj) != nil {
+		return ""
+	}
+	return obj.Status
 }
 
 // VoteAll lets the admins vote in config order, one vote per block, until the proposal is concluded.
